@@ -57,7 +57,7 @@ Section StagedProofs.
 End StagedProofs.
 
 (* The same theorem with the hypotheses in the form the correspondence tests on every run: the value a stage returns
-   is one the model READS from some document with distinct keys (stream `model-de-ser`: the document is the one prqlc
+   is one the model READS from some document (stream `model-de-ser`: the document is the one prqlc
    itself wrote for that value, the model's `de` accepts it and `ser (de j) = j`).  Typing and finiteness are then
    consequences (`de_wt`), not assumptions; and the only hypotheses about errors are the two `core` equations. *)
 Section StagedDocs.
@@ -79,7 +79,7 @@ Section StagedDocs.
   Hypothesis Hcore_compose : forall s o e, core (compose s o e) = core e.
   Hypothesis Hcore_compose1 : forall s e, core (compose1 s e) = core e.
 
-  Definition from_doc (d : desc) (v : value) : Prop := exists j, jnodup j = true /\ de E d j = Some v.
+  Definition from_doc (d : desc) (v : value) : Prop := exists j, de E d j = Some v.
 
   Notation compile := (compile src opts sql err parse resolve gen tagNR tagSQL compose).
   Notation staged := (staged src opts sql err E dPL dRQ parse resolve gen tagNR tagSQL compose1 json_err).
@@ -93,12 +93,12 @@ Section StagedDocs.
     intros H1 H2. unfold SerdeStaged.staged, SerdeStaged.compile, prql_to_pl, pl_to_rq, rq_to_sql, to_json, from_json.
     destruct (parse s) as [pl|e] eqn:Ep; cbn [bind map_err SerdeStaged.observe].
     2: { rewrite Hcore_compose, Hcore_compose1. reflexivity. }
-    destruct (H1 pl eq_refl) as [j1 [Hn1 Hd1]].
-    rewrite (reserialise_stable E dPL j1 pl Hschema HdPL Hn1 Hd1). cbn [bind].
+    destruct (H1 pl eq_refl) as [j1 Hd1].
+    rewrite (reserialise_stable E dPL j1 pl Hschema HdPL Hd1). cbn [bind].
     destruct (resolve pl) as [rq|e] eqn:Er; cbn [bind map_err SerdeStaged.observe].
     2: { rewrite Hcore_compose. reflexivity. }
-    destruct (H2 pl rq eq_refl Er) as [j2 [Hn2 Hd2]].
-    rewrite (reserialise_stable E dRQ j2 rq Hschema HdRQ Hn2 Hd2). cbn [bind].
+    destruct (H2 pl rq eq_refl Er) as [j2 Hd2].
+    rewrite (reserialise_stable E dRQ j2 rq Hschema HdRQ Hd2). cbn [bind].
     destruct (gen o rq) as [q|e]; cbn [map_err SerdeStaged.observe]; [reflexivity|].
     rewrite Hcore_compose. reflexivity.
   Qed.
